@@ -195,18 +195,29 @@ func (m *Model) RunErrLine(s *Sink, rule string) {
 		// String's body, including same-package helpers it hands the work to (parameters resolved along the call chain)
 		m.walkInlined(st, 2, func(in ssa.Instruction, resolve func(ssa.Value) ssa.Value, _ int) {
 			if c, isC := in.(*ssa.Call); isC && c.Call.StaticCallee() != nil && canonFnName(c.Call.StaticCallee()) == "NewContext" {
-				if ex, isEx := resolve(c.Call.Args[0]).(*ssa.Extract); isEx {
-					if src, isS := ex.Tuple.(*ssa.Call); isS && src.Call.StaticCallee() != nil && filepathAbsOfTemplate(m, src.Call.StaticCallee()) {
-						ok = true
-						// the path of a loaded template's file depends on the configuration only — not on which API was
-						// used last (the string API resets the mode flag)
-						ea := m.Effects()
-						for f := range m.Reach([]*ssa.Function{src.Call.StaticCallee()}) {
-							if sum := ea.sums[f]; sum != nil {
-								for g := range sum.globReads {
-									if n := canonGlobalName(g); n != "userConfig" && m.InModule(f) && g.Pkg != nil && strings.HasPrefix(g.Pkg.Pkg.Path(), modPath) {
-										ok = false
-										modeDep = fmt.Sprintf("%s reads the package-level variable %s", fnKey(f), n)
+				// the path may come straight from the path function or through a helper that returns it among its results
+				srcs := []ssa.Value{resolve(c.Call.Args[0])}
+				if ex0, isEx0 := srcs[0].(*ssa.Extract); isEx0 {
+					if hc, isHC := ex0.Tuple.(*ssa.Call); isHC && hc.Call.StaticCallee() != nil && !filepathAbsOfTemplate(m, hc.Call.StaticCallee()) {
+						if rs := m.returnedAt(hc.Call.StaticCallee(), ex0.Index); len(rs) > 0 {
+							srcs = rs
+						}
+					}
+				}
+				for _, sv := range srcs {
+					if ex, isEx := sv.(*ssa.Extract); isEx {
+						if src, isS := ex.Tuple.(*ssa.Call); isS && src.Call.StaticCallee() != nil && filepathAbsOfTemplate(m, src.Call.StaticCallee()) {
+							ok = true
+							// the path of a loaded template's file depends on the configuration only — not on which API was
+							// used last (the string API resets the mode flag)
+							ea := m.Effects()
+							for f := range m.Reach([]*ssa.Function{src.Call.StaticCallee()}) {
+								if sum := ea.sums[f]; sum != nil {
+									for g := range sum.globReads {
+										if n := canonGlobalName(g); n != "userConfig" && m.InModule(f) && g.Pkg != nil && strings.HasPrefix(g.Pkg.Pkg.Path(), modPath) {
+											ok = false
+											modeDep = fmt.Sprintf("%s reads the package-level variable %s", fnKey(f), n)
+										}
 									}
 								}
 							}
@@ -351,4 +362,24 @@ func filepathAbsOfTemplate(m *Model, fn *ssa.Function) bool {
 		}
 	}
 	return false
+}
+
+// returnedAt: the values a module function returns at result index i, failure zero values ("" / nil / 0) left out.
+func (m *Model) returnedAt(fn *ssa.Function, i int) []ssa.Value {
+	if fn == nil || fn.Blocks == nil || !m.InModule(fn) {
+		return nil
+	}
+	var out []ssa.Value
+	for _, b := range fn.Blocks {
+		ret, ok := b.Instrs[len(b.Instrs)-1].(*ssa.Return)
+		if !ok || i >= len(ret.Results) {
+			continue
+		}
+		v := retSource(ret, i)
+		if k, isK := v.(*ssa.Const); isK && (k.Value == nil || isEmptyStringConst(k) || k.Value.String() == "0") {
+			continue
+		}
+		out = append(out, v)
+	}
+	return out
 }
